@@ -236,3 +236,65 @@ def c03_4(R):
         else:
             R.fail([pr.name, "no-error-exit-for", k], "poll_read_vectored has no error exit for %s" % k, where=pr.where(), instance="reader-sees-failure:" + k)
     # dispatcher_dead is set only under vsock_closed = true
+
+
+@rule("C03.5", ["C03", "C08"], ["E3"], "a reader that finds the queue empty and the connection closed gets an error, never a clean EOF or Pending",
+      "In poll_read_vectored, on every path after the edge UserRxSharedLocked.vsock_closed = true (taken only when queue.pop_front() returned None) the exit is Ready(Err(_)) or Ready(Ok(written)) "
+      "with bytes already copied; it is never Poll::Pending and never Ready(Ok(0)) other than the exit control-dependent on is_eof = true. Boolean locals are tracked as predicate bits.")
+def c03_5(R):
+    from utpsa.preds import ZeroTracker
+    b = R.body(POLL_READV)
+    zt = ZeroTracker(b)
+    eof_ok_blocks = set()
+    for it, cls in ret_assignments(b):
+        if cls == "Ready(Ok(const:0))":
+            descs = [d for c, truth, d, *_ in controlling(b, it.bb)]
+            if any("UtpStreamReadHalf.is_eof=true" in d for d in descs):
+                eof_ok_blocks.add(it.bb)
+    dead_edges = set()
+    for blk in b.blocks:
+        if blk.cleanup or blk.term.kind != "switch" or blk.idx not in b.live_blocks():
+            continue
+        c, neg = switch_cond(b, blk.term)
+        if c.kind == "field" and c.trace.last_field == "UserRxSharedLocked.vsock_closed":
+            be = bool_edges(b, blk.idx)
+            dead_edges.add((blk.idx, be[0] if neg else be[1]))
+    R.floor("observation of vsock_closed in poll_read_vectored", len(dead_edges), 1)
+
+    def step(it, s):
+        dead, z, cls, clsbb = s
+        ch = False
+        c = ret_class_of(b, it)
+        if c is not None:
+            cls, clsbb, ch = c, it.bb, True
+        nz = zt.step(it, z)
+        if nz is not None:
+            z, ch = nz, True
+        return (dead, z, cls, clsbb) if ch else None
+
+    def edge(term, tgt, label, s):
+        dead, z, cls, clsbb = s
+        r = zt.edge(term, tgt, label, z)
+        if r is False:
+            return []
+        if (term.bb, tgt) in dead_edges:
+            dead = True
+        return [(dead, r, cls, clsbb)]
+    res = typestate(b, [(False, frozenset(), None, None)], step, edge)
+    bad = None
+    n = 0
+    for bb, states in res.exits.items():
+        for s in states:
+            dead, z, cls, clsbb = s
+            if not dead:
+                continue
+            n += 1
+            if cls == "Pending" or (cls == "Ready(Ok(const:0))" and clsbb not in eof_ok_blocks):
+                if bad is None:
+                    bad = (bb, s)
+    if bad:
+        R.fail([b.name, "closed-and-empty", "exit=" + str(bad[1][2])],
+               "after the reader found the queue empty on a closed connection poll_read_vectored can return %s: an aborted connection reads as a clean end-of-stream (or hangs) instead of failing" % bad[1][2],
+               where=b.where(), witness=res.witness_lines(bad[0], bad[1]), instance="dead-dispatcher=>error")
+    else:
+        R.ok("dead-dispatcher=>error", b.name, "all %d exit states after observing vsock_closed are errors or return copied bytes" % n)
